@@ -216,7 +216,7 @@ pub fn case(tape: &[u32]) -> CaseOutcome {
     report.evaluations = 0;
     for lazy in [false, true] {
         let mode = if lazy { "lazy" } else { "strict" };
-        let (actual, _) = run(&file, &tree, &index, source, &b.globals, &ExecOpts { lazy, debug: None });
+        let (actual, _) = run_capped(&file, &tree, &index, source, &b.globals, &ExecOpts { lazy, debug: None }, model.poll_cap());
         report.evaluations += 1;
         match (&model.outcome, &actual) {
             (_, LibRun::Panic(p)) => return CaseOutcome::Fail(Failure::new(format!("C10:{}:{}", mode, p.signature()), format!("{} execution panicked: {}", mode, p.message), d(json!({})))),
